@@ -121,9 +121,11 @@ def one_run(ctx, ddf, cfg, cname, golden, faults, label, case):
     shutil.rmtree(root, ignore_errors=True)
     os.makedirs(os.path.join(root, "tmp"))
     gsnap, gtree = golden[0], golden[1]
-    stale = sorted(k for k, v in faults.items() if v == "stale")
-    hard = {k: fault_obj(v) for k, v in faults.items() if v != "stale"}
+    stale = sorted(k for k, v in faults.items() if v in ("stale", "stale-last"))
+    hard = {k: fault_obj(v) for k, v in faults.items() if v not in ("stale", "stale-last")}
     fs = fsmon.MonFS(faults=hard, stale_from=stale[0] if stale else None, stale_count=len(stale))
+    if any(v == "stale-last" for v in faults.values()):
+        fs.stale_mode = "last-name"
     outcome = None
     try:
         with dask.config.set(scheduler="synchronous"):
@@ -247,6 +249,12 @@ def run(ctx, spec):
                 faults = {kk: kind for kk in ks}
                 o, fired, detail = one_run(ctx, ddf, cfg, cname, golden, faults, f"{kind}-{reps}-{k}", None)
                 judge(o, fired, detail, kind, reps, ks, None)
+                if kind == "stale":
+                    # second flavour of staleness: the listing lacks the recently created entry
+                    # that sorts last (whichever task wrote it)
+                    faults = {kk: "stale-last" for kk in ks}
+                    o, fired, detail = one_run(ctx, ddf, cfg, cname, golden, faults, f"stale-last-{reps}-{k}", None)
+                    judge(o, fired, detail, "stale-last", reps, ks, None)
         # pairs of positions
         for _ in range(p["pairs"]):
             a, b = sorted(int(v) for v in rng.choice(np.arange(1, K + 1), 2, replace=False))
